@@ -43,6 +43,12 @@ def check_reports(sess):
                     continue
                 if not mosfet and key in ("rs", "ig", "iq"):
                     continue  # ignored in diode mode
+            if k == "LinReg" and key == "iq":
+                if (is_table(val) or val != 0.0) and not (row.get("ig (A)") == "interp" if is_table(val) else row.get("ig (A)") in (val, abs(val))):
+                    sess.fail("C16", "params-show-configured", "%s (LinReg): ig cell %r, configured through the deprecated iq=%r" % (n, row.get("ig (A)"), val))
+                continue
+            if k == "LinReg" and key == "ig" and "iq" in spec["p"] and (is_table(spec["p"]["iq"]) or spec["p"]["iq"] != 0.0):
+                continue
             if not _same(row.get(COL[key]), val):
                 sess.fail("C16", "params-show-configured", "%s (%s): %s cell %r, configured %r" % (n, k, COL[key], row.get(COL[key]), val))
         for key in APPLICABLE[k]:
